@@ -228,6 +228,12 @@ def _weave_states_in_region(
                     # weave vals with input states
                     after_for_state = _weave_states_in_region(op.body, inner_state, rewriter)
 
+                    # an accelerator that is not set up in the loop, but whose state is invalidated inside
+                    # of it (e.g. by a function call), has no known state after the loop either
+                    for acc_name in tuple(state):
+                        if acc_name not in updated_accelerators and acc_name not in after_for_state:
+                            del state[acc_name]
+
                     # get a list of all initial states of accelerators that were changed int the loop.
                     input_states: list[SSAValue] = [
                         state[acc_name] for acc_name in updated_accelerators if state[acc_name] not in op.operands
